@@ -389,6 +389,7 @@ def run_task(name, fn, settings=None, timeout_ms=60000, both=False, min_return_p
     # discharge, de-duplicating syntactically identical VCs
     cache = {}
     n_bad = 0
+    second_opinion_budget = 90.0      # seconds of cvc5 per task in the thorough tier; afterwards z3 alone
     for ob in ex.obligations:
         if n_bad >= 8 and ob.kind != "cover":
             # the task has already failed: the remaining VCs are not worth their time-outs
@@ -447,7 +448,11 @@ def run_task(name, fn, settings=None, timeout_ms=60000, both=False, min_return_p
                 r2.name = full + "[known-finding-domain]"
                 out.vcs.append(r2)
             continue
-        r = discharge(ob, inputs_seen, timeout_ms, use_cvc5=(n_bad == 0), both=both and n_bad == 0)
+        tq = time.time()
+        use_both = both and n_bad == 0 and second_opinion_budget > 0
+        r = discharge(ob, inputs_seen, timeout_ms, use_cvc5=(n_bad == 0), both=use_both)
+        if use_both:
+            second_opinion_budget -= (time.time() - tq)
         out.solver_seconds += r.seconds
         cache[key] = r
         r.name = full
